@@ -385,6 +385,7 @@ package ackhandler
 //@   props C06
 //@   requires h.appDataPackets != nil
 //@   ensures [zero-iff] iff(result0 == 0, (h.initialPackets == nil || h.initialPackets.lossTime == 0) && (h.handshakePackets == nil || h.handshakePackets.lossTime == 0) && h.appDataPackets.lossTime == 0)
+//@   ensures [the-loss-time-of-an-existing-space] implies(result0 != 0, (result1 == 1 && h.initialPackets != nil && result0 == h.initialPackets.lossTime) || (result1 == 2 && h.handshakePackets != nil && result0 == h.handshakePackets.lossTime) || (result1 == 4 && result0 == h.appDataPackets.lossTime))
 //@   modifies nothing
 
 //@ pred (h *sentPacketHandler) sInv() = h.appDataPackets != nil && h.rttStats != nil && h.connStats != nil && h.congestion != nil &&
@@ -437,6 +438,7 @@ package ackhandler
 //@   ensures [crypto-set] implies((initOut && h.initialPackets.lastAckElicitingPacketTime != 0) || (hsOut && h.handshakePackets.lastAckElicitingPacketTime != 0), pto != 0)
 //@   ensures [appdata-set] implies(h.handshakeConfirmed && h.appDataPackets.history.numOutstanding > 0 && h.appDataPackets.lastAckElicitingPacketTime != 0, pto != 0)
 //@   ensures [anti-deadlock] implies(!h.handshakeConfirmed && !initOut && !hsOut && !h.peerCompletedAddressValidation, pto != 0 || now == 0 - lastresult("(*sentPacketHandler).getScaledPTO"))
+//@   ensures [a-space-that-can-carry-a-probe] implies(pto != 0, (encLevel == 1 && h.initialPackets != nil) || (encLevel == 2 && (h.handshakePackets != nil || !h.handshakeConfirmed)) || (encLevel == 4 && h.handshakeConfirmed))
 //@   modifies nothing
 
 //@ func (h *sentPacketHandler) lossDetectionTime
@@ -963,6 +965,7 @@ package ackhandler
 //@   ensures [handshake-confirmed-by-dropping-handshake-space] implies(!early, h.handshakeConfirmed == (old(h.handshakeConfirmed) || encLevel == 2))
 //@   ensures [client-address-validation-complete] h.peerCompletedAddressValidation == (old(h.peerCompletedAddressValidation) || (h.perspective == protocol.PerspectiveClient && encLevel == 2))
 //@   ensures [pto-state-reset] implies(!early, h.ptoCount == 0 && h.numProbesToSend == 0 && h.ptoMode == SendNone)
+//@   ensures [unconfirmed-handshake-keeps-its-space] implies(old(h.handshakeConfirmed || h.handshakePackets != nil), h.handshakeConfirmed || h.handshakePackets != nil)
 //@   ensures [timer-recomputed] implies(!early, called("(*sentPacketHandler).setLossDetectionTimer") == 1)
 //@   let initOut = h.initialPackets != nil && h.initialPackets.history.numOutstanding > 0
 //@   let hsOut = h.handshakePackets != nil && h.handshakePackets.history.numOutstanding > 0
@@ -1065,3 +1068,85 @@ package ackhandler
 //@   modifies nothing
 //@ loop (h *sentPacketHandler) detectAndRemoveAckedPackets#tail #3
 //@   modifies nothing
+
+// detectLostPackets (whole function, by composition with its loop body $1): the space's loss time is cleared first and only
+// ever set again by the loop; loss detection never ADDS to bytes_in_flight; whatever it declares lost it declares through
+// the loop body (whose contract carries the exactly-once accounting per packet).
+//@ func (h *sentPacketHandler) detectLostPackets
+//@   props C06
+//@   let sp = ite(encLevel == 1, h.initialPackets, ite(encLevel == 2, h.handshakePackets, h.appDataPackets))
+//@   requires 1 <= encLevel && encLevel <= 4 && sp != nil && h.sInv() && 0 <= now && now <= 4611686018427387903
+//@   ensures [bytes-in-flight-never-grows] 0 <= h.bytesInFlight && h.bytesInFlight <= old(h.bytesInFlight)
+//@   ensures [space-kept] h.initialPackets == old(h.initialPackets) && h.handshakePackets == old(h.handshakePackets) && h.appDataPackets == old(h.appDataPackets)
+//@   ensures [amplification-accounting-untouched] h.bytesSent == old(h.bytesSent) && h.bytesReceived == old(h.bytesReceived) && h.peerAddressValidated == old(h.peerAddressValidated)
+//@   unclaimed pre:(*sentPacketHandler).detectLostPackets$1@7.0 needs the sum-of-lengths invariant over the history (see DropPackets)
+//@   unclaimed pre:(*sentPacketHandler).detectLostPackets$1@7.1 bounds of the lost-packet tracker and of the packet's encryption level: representation invariants assumed at each iteration
+//@   unclaimed pre:(*sentPacketHandler).detectLostPackets$1@7.2 the history invariant is assumed at each iteration (the loop body is verified against it)
+//@   unclaimed pre:(*sentPacketHandler).detectLostPackets$1@7.3 same
+//@   modifies h.bytesInFlight, heap(packet.includedInBytesInFlight), heap(packet.StreamFrames), heap(packet.Frames), heap(packetNumberSpace.lossTime), heap(sentPacketHistory.numOutstanding), heap(sentPacketHistory.packets), elems(*packet), heap(sentPacketHistory.firstPacketNumber), h.lostPackets.lostPackets, elems(lostPacket)
+//@ loop (h *sentPacketHandler) detectLostPackets #rf1
+//@   invariant 0 <= h.bytesInFlight && h.bytesInFlight <= old(h.bytesInFlight) && h.initialPackets == old(h.initialPackets) && h.handshakePackets == old(h.handshakePackets) && h.appDataPackets == old(h.appDataPackets) && pnSpace != nil
+//@   invariant h.bytesSent == old(h.bytesSent) && h.bytesReceived == old(h.bytesReceived) && h.peerAddressValidated == old(h.peerAddressValidated) && h.congestion != nil
+
+// ResetForRetry (whole function, by composition with $1/$2): after a Retry nothing is in flight any more, both packet number
+// spaces start afresh at the next unused packet number, the PTO state and the alarm are cleared, and the RTT is estimated
+// from the Retry only if no Initial had been retransmitted before (ptoCount == 0).
+//@ func (h *sentPacketHandler) qlogMetricsUpdated
+//@   trusted qlog only (reads the congestion state, writes lastMetrics)
+//@   modifies h.lastMetrics.*
+//@ func (h *sentPacketHandler) ResetForRetry
+//@   props C06 C13
+//@   requires h.initialPackets != nil && h.appDataPackets != nil && h.rttStats != nil && 0 <= now && now <= 4611686018427387903
+//@   ensures [nothing-in-flight] h.bytesInFlight == 0
+//@   ensures [spaces-start-afresh] h.initialPackets != nil && h.appDataPackets != nil && h.initialPackets != old(h.initialPackets) && h.appDataPackets != old(h.appDataPackets) && called("newPacketNumberSpace") == 2
+//@   ensures [pto-and-alarm-cleared] h.ptoCount == 0 && h.alarm.Time == 0
+//@   ensures [rtt-from-retry-only-without-retransmission] called("(*RTTStats).UpdateRTT") == ite(old(h.ptoCount) == 0, 1, 0)
+//@   modifies everything
+//@ loop (h *sentPacketHandler) ResetForRetry #rf1
+//@   invariant h.bytesInFlight == 0 && h.ptoCount == old(h.ptoCount) && h.initialPackets == old(h.initialPackets) && h.appDataPackets == old(h.appDataPackets) && h.rttStats == old(h.rttStats) && called("(*RTTStats).UpdateRTT") == 0 && called("newPacketNumberSpace") == 0
+//@ loop (h *sentPacketHandler) ResetForRetry #rf2
+//@   invariant h.bytesInFlight == 0 && h.ptoCount == old(h.ptoCount) && h.initialPackets == old(h.initialPackets) && h.appDataPackets == old(h.appDataPackets) && h.rttStats == old(h.rttStats) && called("(*RTTStats).UpdateRTT") == 0 && called("newPacketNumberSpace") == 0
+
+// ---------------- skipped packet numbers are remembered (C06: an ACK for one is a PROTOCOL_VIOLATION; C05: never reused) ----------------
+//@ func (h *sentPacketHistory) SkippedPacket
+//@   props C06 C05
+//@   requires h.hInv() && 0 <= pn && pn <= 4611686018427387000 && len(h.packets) <= 1000000
+//@   panics when h.highestPacketNumber != -1 && pn != h.highestPacketNumber + 1
+//@   ensures [number-consumed] h.highestPacketNumber == pn
+//@   ensures [remembered-as-skipped] len(h.skippedPackets) >= 1 && h.skippedPackets[len(h.skippedPackets) - 1] == pn
+//@   ensures [bounded-memory] len(h.skippedPackets) <= 4 && len(h.skippedPackets) == min(old(len(h.skippedPackets)) + 1, 4)
+//@   ensures [placeholder-keeps-indexing] len(h.packets) == old(len(h.packets)) + ite(old(len(h.packets)) > 0, 1, 0) && implies(old(len(h.packets)) > 0, h.packets[len(h.packets) - 1] == nil)
+//@   modifies h.highestPacketNumber, h.firstPacketNumber, h.packets, h.packets[*], h.skippedPackets, h.skippedPackets[*]
+//@ iface (p ackhandler.packetNumberGenerator) Pop
+//@   ensures [skip-leaves-a-gap-of-one] 0 <= result1 && result1 <= 4611686018427387000 && implies(result0, result1 >= 1)
+//@   modifies heap(sequentialPacketNumberGenerator.next), heap(skippingPacketNumberGenerator.next), heap(skippingPacketNumberGenerator.nextToSkip), heap(skippingPacketNumberGenerator.period)
+//@ func (h *sentPacketHandler) PopPacketNumber
+//@   props C06 C05
+//@   let sp = ite(encLevel == 1, h.initialPackets, ite(encLevel == 2, h.handshakePackets, h.appDataPackets))
+//@   requires 1 <= encLevel && encLevel <= 4 && sp != nil && sp.pns != nil
+//@   ensures [skipped-number-recorded] called("(*sentPacketHistory).SkippedPacket") == ite(lastresult("(ackhandler.packetNumberGenerator).Pop", 0), 1, 0)
+//@   ensures [the-skipped-number-is-the-one-before] implies(called("(*sentPacketHistory).SkippedPacket") == 1, callarg("(*sentPacketHistory).SkippedPacket", 0, 1) == result - 1)
+//@   ensures [returns-the-generators-number] result == lastresult("(ackhandler.packetNumberGenerator).Pop", 1)
+//@   unclaimed pre:(*sentPacketHistory).SkippedPacket@2.0 the history invariant of the space is assumed at this call (SkippedPacket is verified against it)
+//@   unclaimed pre:(*sentPacketHistory).SkippedPacket@2.nopanic0 that the generator's numbers continue the history's (next == highest + 1) is an invariant relating two objects of the space; it is not stated anywhere and is assumed
+//@   modifies heap(sequentialPacketNumberGenerator.next), heap(skippingPacketNumberGenerator.next), heap(skippingPacketNumberGenerator.nextToSkip), heap(skippingPacketNumberGenerator.period), sp.history.highestPacketNumber, sp.history.firstPacketNumber, sp.history.packets, sp.history.packets[*], sp.history.skippedPackets, sp.history.skippedPackets[*]
+
+// OnLossDetectionTimeout: whatever the alarm turns out to be, the timer is recomputed on the way out; a pending loss time
+// means loss detection in that space and no probe; otherwise a PTO: the count goes up by one, probes are requested for the
+// space whose PTO expired (one for the anti-deadlock case, two otherwise), and a 1-RTT probe skips a packet number that is
+// recorded as skipped.
+//@ func (h *sentPacketHandler) OnLossDetectionTimeout
+//@   props C06
+//@   requires h.sInv() && 0 <= now && now <= 4611686018427387903 && h.ptoCount < 1000000 && h.numProbesToSend < 999990 && (h.handshakeConfirmed || h.handshakePackets != nil)
+//@   requires h.appDataPackets.pns != nil && forall(k, 0, len(h.appDataPackets.history.pathProbePackets), h.appDataPackets.history.pathProbePackets[k].packet != nil)
+//@   let lossMode = old(!((h.initialPackets == nil || h.initialPackets.lossTime == 0) && (h.handshakePackets == nil || h.handshakePackets.lossTime == 0) && h.appDataPackets.lossTime == 0))
+//@   ensures [timer-always-recomputed] called("(*sentPacketHandler).setLossDetectionTimer") == 1
+//@   ensures [path-probes-only-after-confirmation] called("(*sentPacketHandler).detectLostPathProbes") == ite(old(h.handshakeConfirmed), 1, 0)
+//@   ensures [pto-count-steps-by-at-most-one] h.ptoCount == old(h.ptoCount) || h.ptoCount == old(h.ptoCount) + 1
+//@   ensures [probes-only-with-a-pto] implies(h.ptoCount == old(h.ptoCount), h.numProbesToSend == old(h.numProbesToSend) && called("(*sentPacketHandler).PopPacketNumber") == 0)
+//@   ensures [one-or-two-probes-per-pto] implies(h.ptoCount == old(h.ptoCount) + 1, h.numProbesToSend == old(h.numProbesToSend) + 1 || h.numProbesToSend == old(h.numProbesToSend) + 2)
+//@   ensures [one-rtt-probe-skips-a-recorded-packet-number] implies(called("(*sentPacketHandler).PopPacketNumber") == 1, h.ptoMode == SendPTOAppData && called("(*sentPacketHistory).SkippedPacket") >= 1)
+//@   unclaimed pre:(*sentPacketHistory).SkippedPacket@19.0 the history invariant of the space is assumed at this call (SkippedPacket is verified against it)
+//@   unclaimed pre:(*sentPacketHistory).SkippedPacket@19.nopanic0 the generator's numbers continue the history's: an invariant relating two objects of the space, assumed
+//@   unclaimed pre:(*sentPacketHandler).setLossDetectionTimer@0.0 the handler's representation invariant at the deferred call: the loss-detection callees (detectLostPackets, PopPacketNumber) are under contracts that do not state a frame, so it is assumed here
+//@   modifies everything
